@@ -701,7 +701,7 @@ def run_daemon(desc):
             rx += peer.drain(quiet=1.0, limit=5)
             consumed = open(d.path('results.log')).read()
         except daemon.Inconclusive as e:
-            res.inconclusive.append('daemon: ' + str(e)[:300])
+            daemon.skipped(res, str(e))
             continue
         finally:
             try:
